@@ -93,8 +93,42 @@ def mrg_mvreg(ctx):
     it = interp(facts, body)
     kill = {1: set(), 2: set()}   # side whose value is dropped -> orderings of (own, other) that drop it
     nfilters = 0
+
+    def q_atoms(side, mapping, problems):
+        """Quantifiers over all values of the other side become boolean atoms; in a world where the other side holds a
+        single value y with ord(own, other) = o, both `exists y. P` and `forall y. P` have the value P(o)."""
+        atoms = {}
+
+        def bool_atom(t):
+            q = quant(facts, t, mapping)
+            if q is None:
+                return None
+            xb = param_path(iter_source(q['src'])[0])
+            if not xb or xb[1][-1:] != (vf,) or xb[0] == side or set(iter_adaptors(q['src'])) & LOSSY_ADAPTORS:
+                problems.append('the quantifier does not range over all values of the other side')
+                return None
+            ctx.analysed.add(q['cb'].key)
+            truth, hit = pair_truth(facts, q['cb'], q['m'], 1, vf)
+            if not hit or any(v is None for v in truth.values()):
+                problems.append('inner predicate is not a comparison of an own clock with an other clock')
+                return None
+            key = versionless(subst(t, mapping) if mapping else t)
+            if key not in atoms:
+                atoms[key] = ('q%d' % len(atoms), {o: (truth[o] != q['neg']) for o in PARTIAL})
+            return atoms[key][0]
+        return atoms, bool_atom
+
+    def record(side, keep, where, line):
+        nonlocal nfilters
+        ks = set(o for o, v in keep.items() if v is False)
+        kill[side] |= ks
+        nfilters += 1
+        ctx.ok('filter@%d' % nfilters, where, 'side %s value dropped under ord(own, other) in %s' % ('own' if side == 1 else 'other', sorted(ks)),
+               line=line, details={'kill': sorted(ks), 'side': side})
+
+    # closure form: filter / retain over one side whose predicate combines quantifiers over the other side
     for bb, c in sorted(it.calls.items()):
-        if call_name(c.term) not in ('filter', 'retain'):
+        if call_name(c.term) not in ('filter', 'retain', 'retain_mut'):
             continue
         for clo, mapping in closure_bindings(c.term):
             item = mapping.get(('param', 2))
@@ -108,25 +142,68 @@ def mrg_mvreg(ctx):
             cb = facts.cb(clo[1])
             cit = interp(facts, cb)
             ctx.analysed.add(cb.key)
-            q = quantifier(facts, cit.ret, mapping)
-            if q is None:
-                ctx.shape('filter@%d' % c.line, cb, 'dominance filter is not a recognised quantifier over the other side (%s)' % fmt(cit.ret, 5), line=cb.line)
+            problems = []
+            atoms, ba = q_atoms(side, mapping, problems)
+            Evaluator(facts, bool_atom=ba).ev(cit.ret)
+            keep = {}
+            for o in PARTIAL:
+                keep[o] = Evaluator(facts, bool_atom=ba, assumption={n: tb[o] for n, tb in atoms.values()}).ev(cit.ret)
+            if not atoms or any(v is None for v in keep.values()):
+                ctx.shape('filter@%d' % c.line, cb, (problems[0] if problems else 'dominance filter is not a recognised combination of quantifiers over the other side (%s)' % fmt(cit.ret, 5)), line=cb.line)
                 continue
-            xs, icb, im, pol = q
-            xb = param_path(iter_source(xs)[0])
-            if not xb or xb[1][-1:] != (vf,) or xb[0] == side or set(iter_adaptors(xs)) & LOSSY_ADAPTORS:
-                ctx.shape('filter@%d' % c.line, cb, 'the quantifier does not range over all values of the other side', line=cb.line)
-                continue
-            ctx.analysed.add(icb.key)
-            truth, hit = pair_truth(facts, icb, im, 1, vf)
-            if not hit or any(v is None for v in truth.values()):
-                ctx.shape('filter@%d' % c.line, icb, 'inner predicate is not a comparison of an own clock with an other clock', line=icb.line)
-                continue
-            ks = set(o for o, v in truth.items() if (v if pol == 'none' else not v))
-            kill[side] |= ks
-            nfilters += 1
-            ctx.ok('filter@%d' % nfilters, cb, 'side %s value dropped under ord(own, other) in %s' % ('own' if side == 1 else 'other', sorted(ks)),
-                   line=cb.line, details={'kill': sorted(ks), 'side': side})
+            record(side, keep, cb, cb.line)
+    # loop form: a loop over one side that keeps (pushes into a collection that ends up in self.vals) or drops each item
+    from .loops import loops_of, KEEP_CALLS, item_derived, item_filter
+    adopted_by_loop = False
+    for lp in loops_of(it):
+        side = 1 if lp.whole_over(1, (vf,)) else 2 if lp.whole_over(2, (vf,)) else None
+        if side is None or lp.early_exits():
+            continue
+        sites, kind, flows = [], None, False
+        if side == 1:
+            flt = item_filter(facts, it, lp, (vf,))
+            if flt:
+                kind, sites, flows = flt[0], flt[1], True
+        else:
+            for b2 in sorted(lp.blocks):
+                c2 = it.calls.get(b2)
+                if c2 is None or not c2.args or call_name(c2.term) not in KEEP_CALLS:
+                    continue
+                a0 = c2.args[0]
+                if a0.loc is None or a0.loc[0][0] != 'L' or not any(item_derived(a.val, lp) for a in c2.args[1:]):
+                    continue
+                lname = 'L%d' % a0.loc[0][1]
+                # that collection is appended to self.vals after the loop, on every path
+                for b3, c3 in it.calls.items():
+                    if call_name(c3.term) in ('extend', 'append') and len(c3.args) == 2 and b3 not in lp.blocks:
+                        p0 = param_path(c3.args[0].val)
+                        v = c3.args[1].val
+                        while v[0] == 'call' and call_name(v) in ('into_iter', 'iter', 'drain', 'collect') and v[2]:
+                            v = v[2][0]
+                        if p0 and p0[0] == 1 and p0[1] == (vf,) and v[0] == 'lv' and v[2] == lname \
+                                and Reach(facts, body, Evaluator(facts)).must_pass([b3]):
+                            flows = True
+                kind = 'keep'
+                sites.append(b2)
+        if not sites or not flows:
+            continue
+        problems = []
+        atoms, ba = q_atoms(side, None, problems)
+        lp.inner(Reach(facts, body, Evaluator(facts, bool_atom=ba)))
+        keep = {}
+        for o in PARTIAL:
+            rc = Reach(facts, body, Evaluator(facts, bool_atom=ba, assumption={n: tb[o] for n, tb in atoms.values()}))
+            may, must = lp.may(rc, sites), lp.must(rc, sites)
+            if kind == 'drop':
+                keep[o] = False if must else True if not may else None
+            else:
+                keep[o] = True if must else False if not may else None
+        if not atoms or any(v is None for v in keep.values()):
+            ctx.shape('loop@%d' % block_line(it, lp.head), body, (problems[0] if problems else 'the per-item decision of the loop is not a combination of quantifiers over the other side'), line=block_line(it, lp.head))
+            continue
+        record(side, keep, body, block_line(it, sites[0]))
+        if side == 2:
+            adopted_by_loop = True
     det = {'own dropped under': sorted(kill[1]), 'other dropped under': sorted(kill[2])}
     errs = []
     if LT not in kill[1]:
@@ -156,7 +233,7 @@ def mrg_mvreg(ctx):
             if pp and pp[0] == 1 and pp[1] == (vf,) and ps and ps[0] == 2 and ps[1] == (vf,):
                 rc = Reach(facts, body, Evaluator(facts))
                 added = rc.must_pass([bb])
-    ctx.check(added, 'adopt', body, 'surviving values of other are appended to self', 'the surviving values of other are not added to self.vals on every path')
+    ctx.check(added or adopted_by_loop, 'adopt', body, 'surviving values of other are appended to self', 'the surviving values of other are not added to self.vals on every path')
 
 
 @rule('MV-EVICT', {
